@@ -36,6 +36,12 @@ Definition scan (cutoff : Z) (order : list str) (st : spec_store) : spec_store :
 Definition do_scan (now period : Z) (order : list str) (st : spec_store) : spec_store :=
   scan (now - period) order st.
 
+(** A delivery through StoreManager.Deliver: the message is stamped with the time it ARRIVES
+    ([Meta.Date = time.Now()]); the mail's own Date: header ([hdr_date], None = absent or
+    garbled) plays no part in it, and therefore none in retention. *)
+Definition deliver_op (mb : str) (arrival : Z) (hdr_date : option Z) (tag size : N) : op :=
+  Add mb arrival tag size.
+
 (* ------------------------------------------------------------------ small steps, interleaving *)
 
 Inductive phase :=
